@@ -146,7 +146,7 @@ def execute(prog, faults, extractor=None, fail_save=False, rate=None, enabled=Tr
     res.draws = list(getattr(res.recorder._random, 'draws', []))[res.draws_start:]
     if with_twin:
         res.twin = Built(p, None, World(prog['seed_world'], raise_rate=prog['opts']['raise_rate']), faults=faults)
-        res.twin_outcome = res.twin.run('live')
+        res.twin_outcome = in_caller_context(caller_context, lambda: res.twin.run('live'))      # the twin is called from the same context
     return res
 
 
